@@ -62,10 +62,19 @@ pub use types::SupportedTransport;
 
 pub(crate) mod address;
 pub mod limits;
+#[cfg(not(feature = "verif"))]
 mod peer_state;
+#[cfg(feature = "verif")]
+pub mod peer_state;
+#[cfg(not(feature = "verif"))]
 mod types;
+#[cfg(feature = "verif")]
+pub mod types;
 
 pub(crate) mod handle;
+
+#[cfg(feature = "verif")]
+pub mod verif_hooks;
 
 // TODO: https://github.com/paritytech/litep2p/issues/268 Periodically clean up idle peers.
 // TODO: https://github.com/paritytech/litep2p/issues/344 add lots of documentation
